@@ -29,6 +29,9 @@ func yield() ast.Stmt {
 
 var tmpSeq int
 
+// unmodelled lists uses of runtime timers in the instrumented files.
+var unmodelled []string
+
 func goStmt(g *ast.GoStmt) ast.Stmt {
 	call := g.Call
 	if fl, ok := call.Fun.(*ast.FuncLit); ok && len(call.Args) == 0 {
@@ -130,6 +133,21 @@ func instrument(src []byte, name string) ([]byte, int, error) {
 	if timeName != "" && timeName != "_" && timeName != "." {
 		ast.Inspect(af, func(node ast.Node) bool {
 			if sel, ok := node.(*ast.SelectorExpr); ok {
+				if id, ok := sel.X.(*ast.Ident); ok && id.Name == timeName && id.Obj == nil {
+					switch sel.Sel.Name {
+					case "AfterFunc", "Timer":
+						// modelled: the callback is a thread of the controlled run, enabled from the
+						// moment the virtual clock reaches the deadline (a Timer with a channel,
+						// from NewTimer, is reported below and would not compile against the shim)
+						id.Name = "verifsched"
+						clockReads++
+					case "NewTimer", "NewTicker", "Tick", "After", "Sleep":
+						// runtime timers are a source of nondeterminism the scheduler does not own
+						unmodelled = append(unmodelled, fmt.Sprintf("time.%s at %s:%d", sel.Sel.Name, name, fset.Position(sel.Pos()).Line))
+					}
+				}
+			}
+			if sel, ok := node.(*ast.SelectorExpr); ok {
 				if id, ok := sel.X.(*ast.Ident); ok && id.Name == timeName && id.Obj == nil && (sel.Sel.Name == "Now" || sel.Sel.Name == "Until" || sel.Sel.Name == "Since") {
 					id.Name = "verifsched"
 					clockReads++
@@ -225,6 +243,13 @@ func main() {
 	if err := os.WriteFile(filepath.Join(*out, "overlay.json"), b, 0o644); err != nil {
 		fmt.Fprintln(os.Stderr, err)
 		os.Exit(2)
+	}
+	if err := os.WriteFile(filepath.Join(*out, "unmodelled.txt"), []byte(strings.Join(unmodelled, "\n")), 0o644); err != nil {
+		fmt.Fprintln(os.Stderr, err)
+		os.Exit(2)
+	}
+	for _, u := range unmodelled {
+		fmt.Println("instr: not under the scheduler's control:", u)
 	}
 	fmt.Printf("instr: %d files, %d yield points\n", len(replace), total)
 }
